@@ -20,6 +20,39 @@ class FA:
         if fi.cls is not None and not fi.is_static and params:
             self.self_name = params[0]
         self.sym = SymEval(self.cfg, resolve_global=self.resolve_global, self_name=self.self_name or "self")
+        self.sym.signature_of = self._signature_of
+
+    def _signature_of(self, f):
+        """parameter names of a package callee given as a term: ('global', 'pkg.mod.func') or self.<method> (resolved in the
+        defining class; methods that subclasses re-define with another signature are left alone); plain signatures only"""
+        tgt, skip = None, 0
+        if f[0] == "global":
+            tgt = self.prog.functions.get(f[1])
+        elif f[0] == "self" and self.fi.cls is not None:
+            tgt = self.fi.cls.lookup(f[1])
+            if tgt is not None and not tgt.is_static:
+                skip = 1
+            if tgt is not None:
+                for sc in self.prog.subclasses(self.fi.cls, include_self=False, include_dead=True):
+                    o = sc.methods.get(f[1])
+                    if o is not None and o.params() != tgt.params():
+                        return None
+        if f[0] == "var" and "." not in f[1]:
+            # a function defined inside this function (one definition of that name)
+            inner = [y for y in ast.walk(self.fi.node) if isinstance(y, (ast.FunctionDef, ast.AsyncFunctionDef))
+                     and y is not self.fi.node and y.name == f[1]]
+            if len(inner) == 1:
+                a = inner[0].args
+                if a.vararg or a.kwarg or a.kwonlyargs or a.posonlyargs:
+                    return None
+                return [x.arg for x in a.args]
+            return None
+        if tgt is None or getattr(tgt, "is_property", False):
+            return None
+        a = tgt.node.args
+        if a.vararg or a.kwarg or a.kwonlyargs or a.posonlyargs:
+            return None
+        return [x.arg for x in a.args][skip:]
 
     def resolve_global(self, name: str) -> Optional[str]:
         r = self.prog.resolve_name(self.fi.module, name)
